@@ -41,7 +41,10 @@ struct Interpose {
 };
 inline Interpose& ip() { static Interpose* p = new Interpose(); return *p; }
 
-#if !defined(__SANITIZE_ADDRESS__) && !defined(__SANITIZE_THREAD__)
+// The executable's own definitions of send/recv/... take precedence over the interceptors of the (shared) AddressSanitizer
+// runtime and forward to them through dlsym(RTLD_NEXT), so the fault scripts and the ownership map also work in the asan flavour.
+// ThreadSanitizer models descriptors from its own interceptors: left alone there.
+#if !defined(__SANITIZE_THREAD__)
 #define LV_INTERPOSE 1
 #else
 #define LV_INTERPOSE 0
